@@ -8,6 +8,7 @@
  * this TU does not instantiate. Those predicates are never called here; a layout-compatible stand-in lets the header parse. */
 typedef struct { _Bool has; struct { sv_t e0; sv_t e1; } val; } opt_bto_t;
 #endif
+#define C06_NO_FIXED
 #include "spec/c06.h"      /* spec_bcast_ok / spec_bcast_dim / spec_bcast_extent: the two-operand NumPy broadcast rule */
 #ifndef C07_SPEC_H
 #define C07_SPEC_H
